@@ -1,1 +1,7 @@
 import SoxrModel.Properties.C15
+#print axioms Soxr.Properties.C15.roundDiv_add_mul
+#print axioms Soxr.Properties.C15.delay_relation_streaming
+#print axioms Soxr.Properties.C15.delay_after_flush
+#print axioms Soxr.Properties.C15.delay_zero_fresh
+#print axioms Soxr.Properties.C15.delay_zero_drained
+#print axioms Soxr.Properties.C15.delay_gt_neg_one
